@@ -19,6 +19,39 @@ RE_POOL = [r'[a-z]+', r'\d+', r'[^/]+', r'a*', r'a|ab', r'(?:ab)+', r'.*', r'.+'
            r'é+', r'[0-9][0-9]', r'x?', r'[^-]*', r'-?1', r'/+', r'a\)b', r'[^/]*/b']
 REX_POOL = [r'(a)|(b)', r'(\d+)|([a-z]+)', r'(a)|b', r'(ab?)(x)?', r'(a)|(ab)|(.)']
 BAD_RE = [r'(', r'[a', r'*a', r'(?P<n', r'a{2,1}']
+# regexes with CONTEXT-SENSITIVE zero-width assertions (`^ \A \b \B`, look-behinds): what they accept
+# depends on the text in front of the cursor, so "the filter matched on the remaining text" (the
+# property) and "the filter matched in place, somewhere inside the whole path" differ as soon as the
+# wildcard does not stand at offset 0.  The characters the look-behinds ask for are the ones literal
+# runs are made of (LIT_ALPHA), so both outcomes occur behind generated literals.
+CTX_RE_POOL = [r'^[a-z-]+$', r'\A[a-z]+', r'^\d+', r'\b\d+', r'\b[a-z]+\b', r'\B[a-z0-9]+', r'(?<=a)\d+', r'(?<=/)[a-z]+',
+               r'(?<!a)b+', r'(?<![0-9])\d+', r'(?<!/)[a-z0-9]+', r'(?<=[ab/])x?1', r'(?m)^[a-z]+', r'(?<!\w)\w+', r'\b.+']
+CTX_REX_POOL = [r'\b(a)|(b)', r'(?<=a)(\d+)|([a-z]+)', r'^(ab?)(x)?']
+#: share of `re` / `rex` wildcards drawn from the context-sensitive pools; 0 for the checks that did
+#: not opt in (their random streams stay what they were).  Set through `ctx_regexes`.
+CTX_SHARE = 0.0
+
+
+class ctx_regexes:
+    """`with ctx_regexes(.4): …` — rule generation inside draws that share of its regex filters from
+    CTX_RE_POOL / CTX_REX_POOL"""
+
+    def __init__(self, share):
+        self.share = share
+
+    def __enter__(self):
+        global CTX_SHARE
+        self.old, CTX_SHARE = CTX_SHARE, self.share
+
+    def __exit__(self, *a):
+        global CTX_SHARE
+        CTX_SHARE = self.old
+
+
+def _pick_re(rng, rex=False):
+    if CTX_SHARE and rng.random() < CTX_SHARE:
+        return rng.choice(CTX_REX_POOL if rex else CTX_RE_POOL)
+    return rng.choice(REX_POOL if rex else RE_POOL)
 
 
 def gen_lit(rng, maxlen=4):
@@ -40,10 +73,10 @@ def gen_wild(rng, anon_ok=True):
     if k == 7:
         return ('w', name, 'path', None, None)
     if k < 10:
-        return ('w', name, 're', rng.choice(RE_POOL), None)
+        return ('w', name, 're', _pick_re(rng), None)
     if k == 10:
-        return ('w', name, 'rex', rng.choice(REX_POOL), rng.choice([None, '1', '2', '3', '1', '2', 'x']))
-    return ('w', name, 're', rng.choice(RE_POOL), None)
+        return ('w', name, 'rex', _pick_re(rng, rex=True), rng.choice([None, '1', '2', '3', '1', '2', 'x']))
+    return ('w', name, 're', _pick_re(rng), None)
 
 
 def gen_rule_ast(rng, base=None):
@@ -241,6 +274,12 @@ RE_SAMPLES = {
     r'-?1': ['1', '-1'], r'/+': ['/', '//'], r'a\)b': ['a)b'], r'[^/]*/b': ['a/b', '/b'],
     r'(a)|(b)': ['a', 'b'], r'(\d+)|([a-z]+)': ['12', 'ab'], r'(a)|b': ['a', 'b'], r'(ab?)(x)?': ['a', 'ab', 'abx'],
     r'(a)|(ab)|(.)': ['a', 'ab', 'q'],
+    # context-sensitive pool: texts the filter accepts standing alone (= on the remaining text)
+    r'^[a-z-]+$': ['intro', 'a-b', 'b'], r'\A[a-z]+': ['later', 'a', 'ab'], r'^\d+': ['12', '0'], r'\b\d+': ['2', '12', '007'],
+    r'\b[a-z]+\b': ['ab', 'b', 'x'], r'\B[a-z0-9]+': ['a', '1b', 'ab'], r'(?<=a)\d+': ['12', '0'], r'(?<=/)[a-z]+': ['ab', 'b'],
+    r'(?<!a)b+': ['b', 'bb'], r'(?<![0-9])\d+': ['12', '1'], r'(?<!/)[a-z0-9]+': ['a1', 'b', '0'], r'(?<=[ab/])x?1': ['1', 'x1'],
+    r'(?m)^[a-z]+': ['ab', 'a'], r'(?<!\w)\w+': ['a1', 'é', '0'], r'\b.+': ['a/b', '1', 'a'],
+    r'\b(a)|(b)': ['a', 'b'], r'(?<=a)(\d+)|([a-z]+)': ['12', 'ab'], r'^(ab?)(x)?': ['a', 'ab', 'abx'],
 }
 PATH_ALPHA = ['a', 'b', '/', '-', '0', '1', 'é', '\r', '\n', '.', 'x', '2']
 
